@@ -75,10 +75,27 @@ class SetEncoder(AbstractItemEncoder):
         namedTypes = value.componentType
         substrate = self.protoDict()
 
-        for idx, (key, subValue) in enumerate(value.items()):
-            if namedTypes and namedTypes[idx].isOptional and not value[idx].isValue:
-                continue
+        if namedTypes and value.typeId != univ.Choice.typeId:
+            # do not instantiate components that were never set
+            items = []
+
+            for idx, namedType in enumerate(namedTypes.namedTypes):
+                subValue = value.getComponentByPosition(idx, instantiate=False)
+
+                if subValue is base.noValue:
+                    if namedType.isOptional:
+                        continue
+
+                    subValue = value.getComponentByPosition(idx)
+
+                items.append((namedType.name, subValue))
+
+        else:
+            items = value.items()
+
+        for key, subValue in items:
             substrate[key] = encodeFun(subValue, **options)
+
         return substrate
 
 
